@@ -159,6 +159,24 @@ PROPS = {
                       "strict. Tied to the code by argv and server-side observations on the configuration table.",
         "level_note": "Partial: that OpenSSH and crypto/ssh ENFORCE the option / callback is runtime behaviour, exercised on the table, not proved.",
     },
+    "C16": {
+        "n": {"quick": 60, "thorough": 2500},
+        "cone": ["Bytes", "Pipes", "PipesLemmas"],
+        "kernel_maxlen": 3000,
+        "rule": "the three built-in transports against real peers on loopback: transport.Telnet vs a TCP server, transport.Standard vs an in-process "
+                "x/crypto/ssh server (shell and netconf subsystem), transport.System vs a stand-in program on a raw pty and vs real /usr/bin/ssh "
+                "driving that ssh server; read sizes {1,16,64,333,8192}, payloads around and above the read size (control bytes and 0xFF "
+                "over-represented), five split patterns, random interleavings of peer sends and client writes; blocked-read-then-close and "
+                "peer-hang-up with a watchdog; about 1/6 of the cases run a whole CLI or NETCONF session over the real transport and over the "
+                "simulated ideal pipe and compare. The slices the real Read calls returned are fed to the model as deliveries: it must return "
+                "the same slices. Non-trivial = payload larger than the read size or an interleaving.",
+        "level_text": "Theorems C16_* (12) over the model of the three Read wrappers and Write: for all read-size sequences, delivery splittings and "
+                      "errors every byte is returned exactly once and in order, writes arrive concatenated in order, a read returns 1..n bytes "
+                      "(telnet's first read returns the whole negotiation buffer: stated exception), errors are reported without data. Tied to the "
+                      "code by running the real transports against loopback peers.",
+        "level_note": "Partial: that a blocked fd/session/conn read returns when the transport is closed or the peer goes away, pty line discipline and "
+                      "TCP are runtime behaviour: measured on every case (all returned within milliseconds), not proved.",
+    },
     "C18": {
         "n": {"quick": 250, "thorough": 6000},
         "cone": ["Bytes", "Regex", "Generated", "Channel", "Replay"],
